@@ -29,8 +29,16 @@ type refCSS struct {
 	toks      []rcTok
 	parseErr  bool
 	ambiguous bool
+	quirkTok  int    // index of the token in which the quirk occurs
+	quirk     string // the input contains a construct on which the library's own tests pin a deviation from the specification
 	badString bool // a raw newline ended a string
 	badURL    bool
+}
+
+func (r *refCSS) setQuirk(name string) {
+	if r.quirk == "" {
+		r.quirkTok, r.quirk = len(r.toks), name
+	}
 }
 
 func (r *refCSS) at(i int) int { // byte at p+i or -1 at EOF
@@ -342,13 +350,13 @@ func (r *refCSS) consumeUnicodeRange() {
 		q++
 	}
 	if isHex(r.at(0)) || r.at(0) == '?' {
-		r.ambiguous = true // more than 6 digits/wildcards: the library does not see a range at all
+		r.setQuirk("unicode-range:more-than-six") // the specification stops after six, the library does not see a range at all (TestTokens "U+ABCDEF?")
 	}
 	if q > 0 {
 		return
 	}
 	if r.at(0) == '-' && !isHex(r.at(1)) {
-		r.ambiguous = true // "U+1-" not followed by a hex digit: the library backs off completely (pinned by its TestTokens)
+		r.setQuirk("unicode-range:dangling-minus") // "U+1-": the specification ends the range before the minus, the library backs off completely (TestTokens "U+1-")
 	}
 	if r.at(0) == '-' && isHex(r.at(1)) {
 		r.p++
@@ -358,7 +366,7 @@ func (r *refCSS) consumeUnicodeRange() {
 			m++
 		}
 		if isHex(r.at(0)) {
-			r.ambiguous = true
+			r.setQuirk("unicode-range:more-than-six")
 		}
 	}
 }
@@ -460,7 +468,9 @@ func refCSSLex(b []byte) *refCSS {
 				r.consumeName()
 				tt = css.CustomPropertyNameToken
 				if r.at(0) == '(' {
-					r.ambiguous = true
+					// an identifier directly followed by '(' is a function token, also when it starts with two dashes
+					r.p++
+					tt = css.FunctionToken
 				}
 			} else if r.wouldStartIdentAt(0) {
 				tt = r.consumeIdentLike()
